@@ -110,6 +110,20 @@ func c04Plant(c *mon.Ctx, r *mon.Rng, ec *gen.EveryCase) {
 		}
 		class := ""
 		switch {
+		case (n.Kind == model.KArray || n.Kind == model.KObject) && n.Rule("or") != nil:
+			// empty container under an or-rule: replace the rule by one that does not admit the
+			// container's kind
+			own, other := "object", "array"
+			if n.Kind == model.KArray {
+				own, other = other, own
+			}
+			_ = own
+			for i, rr := range target.Rules {
+				if rr.Name == "or" {
+					target.Rules[i] = model.ROr(model.OrSet(model.RStr("type", other)), model.OrSet(model.RStr("type", "string")))
+				}
+			}
+			class = "container example of a kind no or-alternative admits"
 		case n.Kind == model.KArray:
 			switch r.Intn(2) {
 			case 0:
